@@ -51,6 +51,12 @@ rc, out = sh('git -C /repo status --porcelain --untracked-files=no')
 if out.strip():
     print('/repo is dirty, refusing'); sys.exit(2)
 results = {}
+# the evidence files describe the unchanged tree: keep them out of a run on a seeded tree
+saved = {}
+for p in [prop] + also:
+    ep = '/verif/evidence/%s.json' % p
+    if os.path.exists(ep):
+        saved[ep] = open(ep).read()
 try:
     sh('git -C /repo apply %s' % diff)
     for p in [prop] + also:
@@ -66,6 +72,8 @@ try:
                 results[p]['replay'] = str(e)
 finally:
     sh('git -C /repo checkout -- .')
+    for ep, txt in saved.items():
+        open(ep, 'w').write(txt)
 meta['checks'] = results
 meta['needs'] = open('%s/%s.md' % (sd, letter)).read() if os.path.exists('%s/%s.md' % (sd, letter)) else ''
 dst = '/verif/seeded/%s-%s%s' % (prop, letter, suffix)
